@@ -8,6 +8,7 @@
   C26/reply-exceeds-tiny-count (pinned by the repository's tests).
 -/
 import Absnfs.ServerDir
+import Absnfs.ServerDirPlus
 import Gen.Facts
 open Absnfs Absnfs.Server
 
@@ -136,6 +137,15 @@ theorem readdirplus_toosmall (limit cookie : Nat) (s : St) (nodes : List Node) (
   have hp := pagePlus_spec limit cookie s nodes hc hl
   rw [h] at hp
   exact hp.2
+
+/-- (5') READDIRPLUS: following the returned cookies lists exactly the directory's entries, each once, in
+    order, each with attributes and a handle, ending with eof — for every directory, every limit in which each
+    entry fits on its own, and whatever the server state is at each page (handles are allocated on the way). -/
+theorem readdirplus_walk_complete (limit : Nat) (nodes : List Node) (hfit : AllFitPlus limit nodes)
+    (hl : dirListHeader + dirListTrailer ≤ limit) (s : St) :
+    ∃ ents, walkPagesPlus limit nodes (nodes.length + 1) s 0 = some ents ∧
+      ents.map stripPlus = numbered 0 nodes ∧ ∀ e ∈ ents, e.attr.isSome ∧ e.fh.isSome := by
+  simpa using walkPagesPlus_complete limit nodes hfit hl (nodes.length + 1) s 0 (by omega) (by omega)
 
 /-- non-vacuity: a two-entry directory, tight limit: one entry per page, then eof -/
 def nodeA : Node := ⟨[47, 97], ⟨.file, 420, 0, 1, 0, 0⟩⟩
